@@ -194,7 +194,10 @@ Definition restart_engine (c : val) : val :=
                 then verdict 3 tg nontriv [VB (tag "KF_C20_takeover_delivery"); VN (first_diff 0 (observe_astate maxcap (arun aws)) o1)]
                 else if held_back astate0 [] es && only_more_inflight o1 (observe_astate maxcap (arun aws))
                 then verdict 3 tg nontriv [VB kf_deferred; VN 3]
-                else verdict 2 tg nontriv [VN 2; VN (first_diff 0 (observe_astate maxcap (arun aws)) o1)]
+                else match kf_name maxcap aws with
+                     | Some k => verdict 3 tg nontriv [VB k; VN (first_diff 0 (observe_astate maxcap (arun aws)) o1)]
+                     | None => verdict 2 tg nontriv [VN 2; VN (first_diff 0 (observe_astate maxcap (arun aws)) o1)]
+                     end
               else verdict 0 tg nontriv []
           | _, _ => bad_case
           end
@@ -298,6 +301,134 @@ Definition subinvalid_restart_engine (c : val) : val :=
           else if lost i1 || lost stored || lost i2 then verdict 2 tg nontriv [VN 4]
           else verdict 0 tg nontriv []
       | _, _, _, _ => bad_case
+      end
+  | _ => bad_case
+  end.
+
+(* ---------- C14, restart clause: with Clean Start 1 nothing of the previous session survives ---------- *)
+
+(* the events recorded after the last clean-start marker of client c *)
+Fixpoint after_last_clean (c : bytes) (es : list event) : option (list event) :=
+  match es with
+  | [] => None
+  | e :: r =>
+      match after_last_clean c r with
+      | Some s => Some s
+      | None => match e with ECleanStart c' => if beq_bytes c c' then Some r else None | _ => None end
+      end
+  end.
+
+Definition clean_ids (es : list event) : list bytes :=
+  filter_map (fun e => match e with ECleanStart c => Some c | _ => None end) es.
+
+(* what the session of c may hold: subscriptions accepted and messages queued since its clean start *)
+Definition allowed_subs (c : bytes) (since : list event) : list bytes :=
+  flat_map (fun e => match e with
+                     | ESubscribed c' subs =>
+                         if beq_bytes c c'
+                         then filter_map (fun sr : subscription * N => if 128 <=? snd sr then None else Some (su_filter (fst sr))) subs
+                         else []
+                     | _ => []
+                     end) since.
+Definition allowed_pids (c : bytes) (since : list event) : list N :=
+  filter_map (fun e => match e with
+                       | EQosPublish c' p _ => if beq_bytes c c' then Some (p_pid p) else None
+                       | _ => None
+                       end) since.
+
+Definition sub_entry_ok (es : list event) (v : val) : bool :=
+  match v with
+  | VL [VB cid; VL (VB f :: _)] =>
+      match after_last_clean cid es with
+      | Some since => mem_bytes f (allowed_subs cid since)
+      | None => true
+      end
+  | _ => true
+  end.
+Definition ifm_entry_ok (es : list event) (v : val) : bool :=
+  match v with
+  | VL [VB cid; VL (_ :: VN pid :: _)] =>
+      match after_last_clean cid es with
+      | Some since => existsb (N.eqb pid) (allowed_pids cid since)
+      | None => true
+      end
+  | _ => true
+  end.
+
+Definition clean_survivors (es : list event) (snap : list (list val)) : bool :=
+  match snap with
+  | [_; isub; csub; ifm; _] =>
+      negb (forallb (sub_entry_ok es) isub && forallb (sub_entry_ok es) csub && forallb (ifm_entry_ok es) ifm)
+  | _ => false
+  end.
+
+(* ENGINE restart_life Storage.RestartEngine.restart_life_engine *)
+Definition restart_life_engine (c : val) : val :=
+  match c with
+  | VL [VN bi; VN maxcap; VL evs; s1; s2] =>
+      match backend_of_index bi, map_opt parse_event evs, parse_snapshot s1, parse_snapshot s2 with
+      | Some b, Some es, Some snap1, Some snap2 =>
+          let tg := tag "restart-life" in
+          let nontriv := negb (is_nil (clean_ids es)) in
+          (* other properties' findings that leave records behind *)
+          let excused := superseded_delivery es || held_back astate0 [] es in
+          if excused then verdict 0 (tag "restart-life-excused") false []
+          else if clean_start_leftover astate0 es then verdict 1 tg nontriv [VN 1]   (* still recorded at the clean start *)
+          else if clean_survivors es snap1 then verdict 1 tg nontriv [VN 2]          (* held by the broker *)
+          else if clean_survivors es snap2 then verdict 1 tg nontriv [VN 3]          (* restored later *)
+          else verdict 0 tg nontriv []
+      | _, _, _, _ => bad_case
+      end
+  | _ => bad_case
+  end.
+
+(* ---------- C25, restart clause: no restored message outlives its expiry ---------- *)
+
+(* a tick: housekeeping ran with time [now]; the retained topics and in-flight (client, packet id)
+   left afterwards *)
+Definition parse_tick (v : val) : option (N * list bytes * list ifm_key) :=
+  match v with
+  | VL [VN now; VL topics; VL ifms] =>
+      match map_opt as_B topics,
+            map_opt (fun x => match x with VL [VB c; VN p] => Some (c, p) | _ => None end) ifms with
+      | Some ts, Some ks => Some (now, ts, ks)
+      | _, _ => None
+      end
+  | _ => None
+  end.
+
+Definition alive (maxcap now : N) (p : pkt) : bool :=
+  match deadline maxcap p with Some d => negb (d <? Z.of_N now)%Z | None => true end.
+
+Definition mem_ifm_key (k : ifm_key) (l : list ifm_key) : bool := existsb (ifm_key_eqb k) l.
+
+(* ENGINE restart_expiry Storage.RestartEngine.restart_expiry_engine *)
+Definition restart_expiry_engine (c : val) : val :=
+  match c with
+  | VL [VN bi; VN maxcap; VL evs; VL ticks] =>
+      match backend_of_index bi, map_opt parse_event evs, map_opt parse_tick ticks with
+      | Some b, Some es, Some tks =>
+          let st := arun (awrites_of es) in
+          let rets := filter (fun e : bytes * (bytes * pkt) => negb (is_nil (p_payload (snd (snd e))))) (as_ret st) in
+          let ifms := filter (fun e : ifm_key * (pkt * N) => has_session st (fst (fst e))) (as_ifm st) in
+          let tg := match maxcap with 0 => tag "restart-expiry-nomax" | _ => tag "restart-expiry" end in
+          let has_expiry := existsb (fun e : bytes * (bytes * pkt) => 0 <? p_mei (snd (snd e))) rets in
+          (* kept although expired / gone although not expired, at some tick *)
+          let late := existsb (fun t => let '(now, ts, ks) := t in
+                        existsb (fun e : bytes * (bytes * pkt) => mem_bytes (fst e) ts && negb (alive maxcap now (snd (snd e)))) rets ||
+                        existsb (fun e : ifm_key * (pkt * N) => mem_ifm_key (fst e) ks && negb (alive maxcap now (fst (snd e)))) ifms) tks in
+          let early := existsb (fun t => let '(now, ts, ks) := t in
+                        existsb (fun e : bytes * (bytes * pkt) => negb (mem_bytes (fst e) ts) && alive maxcap now (snd (snd e))) rets ||
+                        existsb (fun e : ifm_key * (pkt * N) => negb (mem_ifm_key (fst e) ks) && alive maxcap now (fst (snd e))) ifms) tks in
+          (* only the messages under observation matter (an acknowledgement record completed before the
+             shutdown may carry an expiry time of its own kind) *)
+          let odd := existsb (fun e : bytes * (bytes * pkt) => irregular maxcap (snd (snd e))) rets ||
+                     existsb (fun e : ifm_key * (pkt * N) => irregular maxcap (fst (snd e))) ifms in
+          if odd then verdict 0 (tag "restart-expiry-excused") false []
+          else if late then verdict 1 tg has_expiry [VN 1]
+          else if early then verdict 1 tg has_expiry [VN 2]
+          else verdict 0 tg has_expiry []
+      | _, _, _ => bad_case
       end
   | _ => bad_case
   end.
